@@ -239,7 +239,8 @@ def loop_iteration(c, k):
     result = tuple(res[n] for n in names)
     extra = {}
     start = {'q': q, 'remaining': r, 'result': result, 'set_aside': None}
-    if 'set_aside' in fn.debug_names:
+    from .history import match_roles
+    if 'set_aside' in match_roles(fn):
         nmax = c.cube.get('set_aside_max', 1)
         sos = []
         nsa = S.ZExt(inp.var('sa%d.n' % k, 2), 64)
